@@ -61,7 +61,7 @@ func (f *fctx) call(ins *ssa.Call) {
 			}
 			a := f.val(com.Args[0])
 			cur := f.cur.cells[f.emitSeq]
-			f.cur.cells[f.emitSeq] = f.define("emit", T(cur.Sort, "(mkseq (+ (seq.len %s) 1) (store (seq.el %s) (seq.len %s) %s))", cur.S, cur.S, cur.S, a.S))
+			f.cur.cells[f.emitSeq] = f.define("emit", T(cur.Sort, "(%s (+ (seq.len %s) 1) (store (seq.el %s) (seq.len %s) %s))", mkseqOf(cur.Sort), cur.S, cur.S, cur.S, a.S))
 			return
 		}
 		f.fail("call of function-typed parameter %s", callee.Name())
@@ -132,7 +132,7 @@ func (f *fctx) builtin(ins *ssa.Call, b *ssa.Builtin) {
 			for k := 0; k < n; k++ {
 				el = fmt.Sprintf("(store %s (+ (seq.len %s) %d) (select (seq.el %s) %d))", el, s.S, k, t.S, k)
 			}
-			f.defVal(ins, Term{S: fmt.Sprintf("(mkseq (+ (seq.len %s) %d) %s)", s.S, n, el), Sort: s.Sort})
+			f.defVal(ins, Term{S: fmt.Sprintf("(%s (+ (seq.len %s) %d) %s)", mkseqOf(s.Sort), s.S, n, el), Sort: s.Sort})
 			return
 		}
 		r := f.declare(ins.Name(), s.Sort)
@@ -224,7 +224,7 @@ func (f *fctx) callFunction(ins *ssa.Call, callee *ssa.Function, args []Term, po
 		for k := 0; k < 6; k++ {
 			el = fmt.Sprintf("(store %s %d (str1 (f%d %s)))", el, k, k, s.S)
 		}
-		f.defVal(ins, Term{S: fmt.Sprintf("(mkseq (nf %s) %s)", s.S, el), Sort: SeqOf(SStr)})
+		f.defVal(ins, Term{S: fmt.Sprintf("(%s (nf %s) %s)", mkseqOf(SeqOf(SStr)), s.S, el), Sort: SeqOf(SStr)})
 		f.sc.Trusted["strings.Split(s,\"/\"): nf(s) one-field strings, fields in order"] = true
 		return
 	case "strings.Join":
@@ -259,6 +259,11 @@ func (f *fctx) callFunction(ins *ssa.Call, callee *ssa.Function, args []Term, po
 	}
 	con := f.vc.contractOf(callee)
 	_, inRepo := f.vc.dirOf(callee)
+	if unr, ok := f.inlineDirective(callee); ok {
+		res := f.inlineCallWith(callee, args, nil, pos, unr, con)
+		f.setResult(ins, res)
+		return
+	}
 	if con != nil && !con.Inline && !(f.fn == callee && f.con == con && false) {
 		res := f.applyContract(callee, con, args, pos, f.insID(ins))
 		f.setResult(ins, res)
@@ -395,11 +400,73 @@ func (f *fctx) applyContract(callee *ssa.Function, con *Contract, args []Term, p
 		}
 		f.assume(Implies(preAll, wantBoolE(t)))
 	}
+	// additional cases: their ensures hold for arguments of the case's shape
+	// that satisfy the case's own requires and split ranges
+	for _, cc := range con.Cases {
+		cenvPre := f.contractEnv(cc, callee, args, nil, pre, pre)
+		var guards []Term
+		guards = append(guards, preAll)
+		for _, sh := range cc.Shapes {
+			for i, p := range callee.Params {
+				if p.Name() == sh.Param {
+					var atoms []string
+					for gi := range sh.Ghosts {
+						atoms = append(atoms, fmt.Sprintf("(a.num (a.value (fld %s %d)))", args[i].S, gi))
+					}
+					guards = append(guards, T(SBool, "(= %s (str%d %s))", args[i].S, len(sh.Ghosts), strings.Join(atoms, " ")))
+				}
+			}
+		}
+		for _, sp := range cc.Splits {
+			e, err := ParseExpr(fmt.Sprintf("%d <= %s && %s <= %d", sp.Lo, sp.Var, sp.Var, sp.Hi))
+			if err != nil {
+				panic(specErr{err.Error()})
+			}
+			t, err := ToSMT(e, cenvPre)
+			if err != nil {
+				panic(specErr{fmt.Sprintf("%s:%d: split %s: %v", cc.File, cc.Line, sp.Var, err)})
+			}
+			guards = append(guards, wantBoolE(t))
+		}
+		for _, c := range cc.Requires {
+			t, err := ToSMT(c.Expr, cenvPre)
+			if err != nil {
+				panic(specErr{fmt.Sprintf("%s:%d: %v", c.File, c.Line, err)})
+			}
+			guards = append(guards, wantBoolE(t))
+		}
+		g := f.define("caseguard", And(guards...))
+		cenv := f.contractEnv(cc, callee, args, res, f.cur, pre)
+		for _, c := range cc.Ensures {
+			t, err := ToSMT(c.Expr, cenv)
+			if err != nil {
+				panic(specErr{fmt.Sprintf("%s:%d: %v", c.File, c.Line, err)})
+			}
+			f.assume(Implies(g, wantBoolE(t)))
+		}
+	}
 	return res
 }
 
 // inlineCall translates the callee body in place (callees without contract).
+// inlineDirective: the root contract asks for this callee to be translated in place.
+func (f *fctx) inlineDirective(callee *ssa.Function) (map[int]int, bool) {
+	root := f
+	for root.parent != nil {
+		root = root.parent
+	}
+	if root.rootCon == nil || root.rootCon.InlineCalls == nil {
+		return nil, false
+	}
+	m, ok := root.rootCon.InlineCalls[FuncKey(callee)]
+	return m, ok
+}
+
 func (f *fctx) inlineCall(callee *ssa.Function, args []Term, bindings []ssa.Value, pos token.Pos) []Term {
+	return f.inlineCallWith(callee, args, bindings, pos, nil, nil)
+}
+
+func (f *fctx) inlineCallWith(callee *ssa.Function, args []Term, bindings []ssa.Value, pos token.Pos, unroll map[int]int, calleeCon *Contract) []Term {
 	if f.depth >= 5 {
 		f.fail("inlining depth exceeded at %s", callee.String())
 	}
@@ -421,7 +488,11 @@ func (f *fctx) inlineCall(callee *ssa.Function, args []Term, bindings []ssa.Valu
 	c.pow2Vals = f.pow2Vals
 	c.constLen = f.constLen
 	c.obPrefix = f.obPrefix
-	c.con = &Contract{Loops: map[int][]Clause{}, NoOverflow: f.con != nil && f.con.NoOverflow}
+	c.validTerm = f.validTerm
+	c.con = &Contract{Loops: map[int][]Clause{}, Unroll: map[int]int{}, NoOverflow: f.con != nil && f.con.NoOverflow}
+	for l, n := range unroll {
+		c.con.Unroll[l] = n
+	}
 	c.cur = f.cur
 	c.curReach = f.curReach
 	c.entry = f.entry
